@@ -34,6 +34,11 @@ var checks = map[string]checkSpec{
 		Quick:     40 * time.Second, Thorough: 12 * time.Minute, Level: "exploration",
 		Rule: "2-8 goroutines share one Conn (ReadOffset with injective answers, ReadPartitions of distinct topics, ReadOffsets, Brokers, SetDeadline racing with I/O) or one Transport/Client (ListOffsets, Metadata, OffsetFetch, Fetch of pairwise distinct targets) with contexts cancelled or expiring mid-flight, slow / silent brokers, cuts and error codes; every call must return its own (precomputed) answer or an error, and correlation ids must be unique per connection.",
 	},
+	"C11": {
+		Scenarios: []scnSpec{{Name: "connerr", Share: 1, Count: 4356}},
+		Quick:     30 * time.Second, Thorough: 10 * time.Minute, Level: "fault_enumeration",
+		Rule: "Exhaustive enumeration (thorough tier; the quick tier walks a seed-dependent subset of the same bijection) of 11 Conn operations x 3 negotiated-version configurations (produce v2/v3/v7, fetch v2/v5/v10, metadata v1/v6) x 11 faults (8 Kafka error codes placed in the operation's error field, response cut mid-way, garbage size prefix, wrong correlation id) x 11 follow-up operations = 4356 cases; after a broker error code the follow-up must behave as on a fresh connection, after a framing/transport error it must fail, and no operation may return a value other than the model's.",
+	},
 	"C07": {
 		Scenarios: []scnSpec{{Name: "writer", Params: "focus=order", Share: 1}},
 		Quick:     35 * time.Second, Thorough: 10 * time.Minute, Level: "exploration",
